@@ -44,13 +44,24 @@ impl Footer {
     pub fn decode(from: &[u8]) -> Footer {
         assert!(from.len() >= FULL_FOOTER_LENGTH);
         assert_eq!(&from[FOOTER_LENGTH..], &MAGIC_FOOTER_ENCODED);
-        let (meta, metalen) = BlockHandle::decode(&from[0..]);
-        let (ix, _) = BlockHandle::decode(&from[metalen..]);
+        Footer::try_decode(from).unwrap()
+    }
 
-        Footer {
+    /// Like `decode()`, but returns None instead of panicking if `from` is not a footer (too
+    /// short, wrong magic number, or undecodable block handles).
+    pub fn try_decode(from: &[u8]) -> Option<Footer> {
+        if from.len() < FULL_FOOTER_LENGTH
+            || &from[FOOTER_LENGTH..FULL_FOOTER_LENGTH] != &MAGIC_FOOTER_ENCODED
+        {
+            return None;
+        }
+        let (meta, metalen) = BlockHandle::try_decode(&from[0..])?;
+        let (ix, _) = BlockHandle::try_decode(&from[metalen..])?;
+
+        Some(Footer {
             meta_index: meta,
             index: ix,
-        }
+        })
     }
 
     pub fn encode(&self, to: &mut [u8]) {
